@@ -982,9 +982,21 @@ class Staircase(Pbox):
     def __array_ufunc__(self, ufunc, method, *inputs, **kwargs):
         if method != "__call__":
             return NotImplemented
-        if len(inputs) != 1 or inputs[0] is not self:
-            return NotImplemented
         if "out" in kwargs and kwargs["out"] is not None:
+            return NotImplemented
+
+        # numpy scalar on the left of + - * / : use the reflected operators
+        if len(inputs) == 2 and inputs[1] is self and isinstance(inputs[0], Number):
+            if ufunc is np.add:
+                return self.__radd__(inputs[0])
+            if ufunc is np.subtract:
+                return self.__rsub__(inputs[0])
+            if ufunc is np.multiply:
+                return self.__rmul__(inputs[0])
+            if ufunc is np.true_divide:
+                return self.__rtruediv__(inputs[0])
+
+        if len(inputs) != 1 or inputs[0] is not self:
             return NotImplemented
 
         if ufunc is np.sin:
